@@ -41,6 +41,12 @@ class QuicConn:
                        if lab != "CLIENT_EARLY_TRAFFIC_SECRET" or p.get("early_in_log", True)]
         self.odcid = g(p.get("odcid_len", 8))
         self.cid = {"c": g(p.get("c_cid_len", 8)), "s": g(p.get("s_cid_len", 8))}   # the SCID each side chose
+        if "odcid" in p:
+            self.odcid = bytes.fromhex(p["odcid"])
+        if "cid_c" in p:
+            self.cid["c"] = bytes.fromhex(p["cid_c"])
+        if "cid_s" in p:
+            self.cid["s"] = bytes.fromhex(p["cid_s"])
         self.dcid_now = {"c": self.odcid, "s": self.cid["c"]}                         # DCID each side currently sends to
         self.pn = {d: {"i": 0, "h": 0, "a": 0} for d in "cs"}
         self.largest_seen = {d: {"i": -1, "h": -1, "a": -1} for d in "cs"}            # as the observer sees it
